@@ -134,6 +134,27 @@ claim("C19",
       "the listed deviation enabled for directions on which a send was abandoned.",
       TRUST + "kernel behaviour is sampled, not enumerated; open finding C19-abandoned-send-resent-from-start",
       "TLA+ model checking (TLC) of the transport composition + TLC trace validation of real-socket executions", "4/C19")
+claim("C13",
+      "Idl.tla transcribes the Varlink grammar (the three name rules over character classes, types, members, comment "
+      "placement) into a recursive-descent acceptor Parse over token lists; TLC checks on an enumerated space of "
+      "descriptions that Parse inverts the canonical rendering, that prefixes are rejected or denote the complete members, "
+      "and that nothing is ignored when a mutated token list is accepted, and exports the descriptions. Each is rendered "
+      "in four layouts; with grammar-driven random descriptions, token/character mutations, truncation at every character "
+      "and byte/token soup every text goes through Interface::try_from (catch_unwind + watchdog) and an independent lexer, "
+      "and TLC decides per case: rejected iff outside the grammar, accepted texts denote exactly Parse's description "
+      "(= the generating tree), no panic, no hang.",
+      TRUST + "the harness lexer (text -> tokens) and the accessor projection of zlink's Interface",
+      "TLA+ transcription of the grammar (TLC-checked laws, TLC-enumerated descriptions) + TLC validation of every parser verdict",
+      "4/C13")
+claim("C14",
+      "Same specification. Every enumerated / random description is built through the public constructors (owned and "
+      "borrowed) or obtained from the parser, rendered by zlink's Display, lexed, and TLC checks that the text is in the "
+      "grammar and denotes the description (Parse(tokens) = Norm(tree)), that zlink parses it back to an equal description, "
+      "re-renders the same text, and that the GetInterfaceDescription form (serialize -> deserialize -> parse) agrees. The "
+      "open finding (commented enum variants rendered without commas) is matched by input shape and outcome only.",
+      TRUST + "the harness lexer and the accessor projection; open finding C14-commented-enum-variants-rendered-without-separators",
+      "TLA+ grammar acceptor (TLC) validating zlink's rendering and its parse-back for constructor-built descriptions",
+      "4/C14")
 claim("C03",
       "JsonSer.tla specifies the compact encoding of the serde data model (Encode, EncodeKey, the key classes, "
       "EscapeOf over code points). TLC enumerates value trees, checks the text is balanced and exports them; each "
